@@ -277,8 +277,41 @@ const EXTRA_SEEDS: &[&str] = &[
     "pkg:t/ns/n@1?k=%26%3D%23&checksum=SHA1:00FF,md5:ab#a/%2e%2e%2Fb",
 ];
 
+/// String literals that look like PURLs in the repository's own sources (unit tests, doc examples,
+/// README): the inputs of the existing tests, checked here with the full set of assertions.
+fn scan_sources(dir: &str, out: &mut Vec<String>) {
+    let Ok(rd) = std::fs::read_dir(dir) else { return };
+    for e in rd.flatten() {
+        let p = e.path();
+        if p.is_dir() {
+            scan_sources(&p.to_string_lossy(), out);
+        } else if matches!(p.extension().and_then(|x| x.to_str()), Some("rs") | Some("md")) {
+            if let Ok(text) = std::fs::read_to_string(&p) {
+                let mut rest = text.as_str();
+                while let Some(i) = rest.find("\"pkg:") {
+                    let tail = &rest[i + 1..];
+                    if let Some(j) = tail.find('"') {
+                        let lit = &tail[..j];
+                        if !lit.contains('\\') && !lit.contains('{') && lit.len() < 300 && !out.iter().any(|x| x == lit) {
+                            out.push(lit.to_owned());
+                        }
+                        rest = &tail[j..];
+                    } else {
+                        break;
+                    }
+                }
+            }
+        }
+    }
+}
+
 fn load_corpus(paths: &[String]) -> Vec<String> {
     let mut out: Vec<String> = EXTRA_SEEDS.iter().map(|s| s.to_string()).collect();
+    for p in paths {
+        if std::path::Path::new(p).is_dir() {
+            scan_sources(p, &mut out);
+        }
+    }
     for p in paths {
         if let Ok(text) = std::fs::read_to_string(p) {
             if let Ok(Value::Array(items)) = serde_json::from_str::<Value>(&text) {
